@@ -69,6 +69,8 @@ func C14(c *Ctx) {
 	c.R.Rule("C14-R3", "E5", "breadth-first FIFO queue; each recipient walked once", 3)
 	c.R.Rule("C14-R5", "E3+E1", "every emitted message is fed back once and reported once, in batches private to one machine (= C08-R5)", 3)
 	c.R.Rule("C14-R6", "E3", "one machine's failure does not discard what the others emitted", 1)
+	c.R.Rule("C14-R8", "E7", "mcrew's transports do not edit the message they deliver (it is also the report)", 0)
+	c14HandedOn(c)
 	c.R.Rule("C14-R7", "E1", "Walk never writes the batch it is given: every recipient of a broadcast is offered the same messages", 1)
 	c.batchUntouched("C14-R7")
 	c14RunMachines(c)
